@@ -431,12 +431,19 @@ func TestC19Http(t *testing.T) {
 	edge = append(edge, []htAct{{Op: "P", Kind: "edge:2"}, {Op: "A", D: 60}, {Op: "A", D: 60}})
 	edge = append(edge, append(append([]htAct{}, preR...), htAct{Op: "P", Kind: "chunked:ok:a"}, htAct{Op: "P", Kind: "chunked:garbage"}, htAct{Op: "P", Kind: "chunked:empty"}))
 	edge = append(edge, append(append([]htAct{}, preR...), htAct{Op: "P", Kind: "chunked:edge:2"}, htAct{Op: "A", D: 60}))
-	for _, acts := range edge {
-		if want(idx) {
-			emitHttp(em, t, idx, interval, timeout, acts, "edge-size")
+	// ... spread over the rig's index space (one every 500 cases): ./check evaluates contiguous chunks of cases in
+	// parallel, six megabyte cases in one chunk made that chunk the slowest by far
+	emitEdge := func() {
+		if len(edge) == 0 {
+			return
 		}
+		if want(idx) {
+			emitHttp(em, t, idx, interval, timeout, edge[0], "edge-size")
+		}
+		edge = edge[1:]
 		idx++
 	}
+	emitEdge()
 	// (1) every request shape on its own, then with a reader waiting
 	shapes := append(append([]string{}, trInvalidKinds...), "ok:a", "ok:b", "ok:c", "ok:d")
 	for _, k := range shapes {
@@ -476,6 +483,9 @@ func TestC19Http(t *testing.T) {
 			}
 			idx++
 			nconn, npend = len(h.conns), pendingIdx(h.rDone)
+			if idx%500 == 250 {
+				emitEdge()
+			}
 		}
 		if len(prefix) >= maxLen {
 			return
@@ -500,6 +510,9 @@ func TestC19Http(t *testing.T) {
 		}
 	}
 	rec(nil)
+	for len(edge) > 0 {
+		emitEdge()
+	}
 	// (3) seeded random longer scenarios over the full alphabet
 	nrand := 300
 	if thorough() {
@@ -576,6 +589,7 @@ func TestC19HttpE2E(t *testing.T) {
 	if thorough() {
 		extra = 120
 	}
+	nEdgeReplayed := 0
 	envs := genEnvelopes(r, trBodySizes(), extra)
 	envs = append(envs, genEdgeEnvelopes(newRand(1914))...) // 1 MiB - 4096, 1 MiB - 1, 1 MiB, 1 MiB in the largest envelope
 	var fromA goat.RpcReadWriter
@@ -660,12 +674,18 @@ func TestC19HttpE2E(t *testing.T) {
 			}
 		}
 		tags := []string{"http:e2e"}
+		e2eCase := "CHttpE2E" // replayed on the link model (Model/HttpLink.v)
 		if big != nil && big.cyc {
 			tags = append(tags, "http:e2e-edge-size")
+			nEdgeReplayed++
+			if !thorough() && nEdgeReplayed > 1 { // quick: one megabyte case is replayed, the others are judged without
+				e2eCase = "CHttpE2EQ"
+				tags = append(tags, "http:e2e-no-replay")
+			}
 		}
 		em.Emit(Rec{Idx: idx, Kind: "http-e2e", Desc: map[string]any{"envelopes": len(group), "encoded_sizes": sizes},
 			Obs: map[string]any{"writes_ok": oks},
-			Coq: big.coqLet(fmt.Sprintf("CHttpE2E %s %s %s", coqList(written), coqList(oks), coqList(read))), Tags: tags})
+			Coq: big.coqLet(fmt.Sprintf("%s %s %s %s", e2eCase, coqList(written), coqList(oks), coqList(read))), Tags: tags})
 		em.Marker("end", idx)
 		idx++
 	}
